@@ -76,8 +76,11 @@ const (
 	beHashmap  = "hashmap"
 	beBbolt    = "bbolt"
 	beInjected = "injected"
-	beRegistry = "registry" // an injected runtime.Registry with a value provider that pushes updates
-	beConfig   = "config"   // the config module's own injected database
+	// an injected storage that reports itself read-only (the storage.InjectBase default): writes through an interface
+	// are refused, updates pushed by the storage are announced like any other
+	beInjectedRO = "injected-readonly"
+	beRegistry   = "registry" // an injected runtime.Registry with a value provider that pushes updates
+	beConfig     = "config"   // the config module's own injected database
 )
 
 // place: a database and a key namespace in it.
@@ -113,13 +116,13 @@ func openPlace(backend string, shadow bool) (*place, error) {
 		if err := registerDB(p.dbName, backend, shadow); err != nil {
 			return nil, err
 		}
-	case beInjected:
+	case beInjected, beInjectedRO:
 		p.shadow = false
 		p.dbName = fmt.Sprintf("c14-in-%d", dbCounter.Add(1))
 		if err := registerDB(p.dbName, database.StorageTypeInjected, false); err != nil {
 			return nil, err
 		}
-		p.inj = &injStorage{name: p.dbName, recs: map[string]*record.Wrapper{}, fail: map[string]bool{}}
+		p.inj = &injStorage{name: p.dbName, recs: map[string]*record.Wrapper{}, fail: map[string]bool{}, readOnly: backend == beInjectedRO}
 		ctrl, err := database.InjectDatabase(p.dbName, p.inj)
 		if err != nil {
 			return nil, err
@@ -250,6 +253,8 @@ type injStorage struct {
 	name string
 	recs map[string]*record.Wrapper
 	fail map[string]bool
+
+	readOnly bool
 }
 
 func copyWrapper(w *record.Wrapper) *record.Wrapper {
@@ -297,7 +302,7 @@ func (s *injStorage) Delete(key string) error {
 	return nil
 }
 
-func (s *injStorage) ReadOnly() bool { return false }
+func (s *injStorage) ReadOnly() bool { return s.readOnly }
 
 func (s *injStorage) setFail(key string, fail bool) {
 	s.mu.Lock()
